@@ -82,6 +82,7 @@ type VC struct {
 	retSeen          map[string]int
 	lemmaPkg         *types.Package
 	preparing        bool
+	preInstr         *State
 	contractErr      bool
 	deadCache        map[string]map[int]bool
 	deadMu           sync.Mutex
@@ -809,6 +810,9 @@ func (vc *VC) execBlock(b *ssa.BasicBlock, initial *State) {
 		}
 	}
 	for _, ins := range b.Instrs {
+		if len(vc.updatesAt[ins])+len(vc.assertsAt[ins]) > 0 {
+			vc.preInstr = st.clone()
+		}
 		vc.execInstr(ins, st)
 		vc.runUpdates(ins, st)
 	}
@@ -1120,6 +1124,11 @@ func (vc *VC) footprint(comp, av string) (string, bool) {
 			}
 			for _, pat := range mi.Comps {
 				if !vc.prog.compMatches(pat, comp, vc.fn.Pkg.Pkg) {
+					continue
+				}
+				if mi.After != nil {
+					ob := vc.evalVal(mi.After, env, vc.entry, vc.entry)
+					parts = append(parts, sx("<", sx("rootOf", vc.addrOf(ob)), sx("rootOf", av)))
 					continue
 				}
 				if mi.At == nil {
